@@ -2,6 +2,7 @@
 CONSTANTS
   Alphabet <- Alpha9
   MaxLen = 8
+  CC = "#"
   Dump = FALSE
 INIT Init
 NEXT Next
